@@ -217,6 +217,48 @@ def _mk_percall(cid, o):
     return fn
 
 
+OWN_SRC = 'class K:\n    def m(self):\n        """Doc\n        two."""\n        return 1\n    x = """s\n  t"""\n'
+
+
+def p2_query_options(seq: int, v1: int, v2: int):
+    """a per-call option of a QUERY (own_src docstr=...) affects only that call; a block option only the block: the same node
+    asked in any order of (default, explicit, inside a block) answers like a fresh tree asked once under the same effective option"""
+    import ast as _ast
+    DV = [True, False, 'strict']
+    assume(0 <= seq <= 5 and 0 <= v1 <= 2 and 0 <= v2 <= 2)
+    order = [(0, 1, 2), (0, 2, 1), (1, 0, 2), (1, 2, 0), (2, 0, 1), (2, 1, 0)][pc.pin(seq, 0, 5)]
+    a1, a2 = DV[pc.pin(v1, 0, 2)], DV[pc.pin(v2, 0, 2)]
+    _reset()
+    with pc.untraced():
+        root = FST(OWN_SRC, 'exec')
+        nodes = [n.f for n in _ast.walk(root.a) if isinstance(n, (_ast.FunctionDef, _ast.Expr, _ast.Assign, _ast.ClassDef))]
+    for node in nodes:
+        got = {}
+        for step in order:
+            if step == 0:
+                got['default'] = node.own_src()
+            elif step == 1:
+                got['call'] = node.own_src(docstr=a1)
+            else:
+                with FST.options(docstr=a2):
+                    got['block'] = node.own_src()
+        with pc.untraced():
+            fresh = FST(OWN_SRC, 'exec')
+            fn_ = [n.f for n in _ast.walk(fresh.a) if isinstance(n, (_ast.FunctionDef, _ast.Expr, _ast.Assign, _ast.ClassDef))][nodes.index(node)]
+            exp_default = fn_.own_src()
+            fresh2 = FST(OWN_SRC, 'exec')
+            exp_call = [n.f for n in _ast.walk(fresh2.a) if isinstance(n, (_ast.FunctionDef, _ast.Expr, _ast.Assign, _ast.ClassDef))][nodes.index(node)].own_src(docstr=a1)
+            fresh3 = FST(OWN_SRC, 'exec')
+            with FST.options(docstr=a2):
+                exp_block = [n.f for n in _ast.walk(fresh3.a) if isinstance(n, (_ast.FunctionDef, _ast.Expr, _ast.Assign, _ast.ClassDef))][nodes.index(node)].own_src()
+            check(got['default'] == exp_default, 'query_options.default_answer_depends_on_other_calls', (type(node.a).__name__, order, a1, a2))
+            check(got['call'] == exp_call, 'query_options.per_call_option_ignored_or_leaked', (type(node.a).__name__, order, a1, a2))
+            check(got['block'] == exp_block, 'query_options.block_option_ignored_or_leaked', (type(node.a).__name__, order, a1, a2))
+    check(_same(FST.get_options(), DEFAULTS), 'query_options.defaults_changed')
+    _reset()
+    cover('ok')
+
+
 FNO = ['fst.fst_options.check_options', 'fst.fst_options.set_options', 'fst.fst_options.options', 'fst.fst_options.get_option', 'fst.fst_options.get_options',
        'fst.fst_options._check_opt_trivia', 'fst.fst_options._check_opt_pep8space']
 CELLS = []
@@ -229,3 +271,6 @@ for _cid, _o in (('ifbody3', 'trivia'), ('ifbody3', 'pep8space'), ('list4c', 'pa
     CELLS.append(Cell(f'P1.percall[{_cid},{_o}]', _mk_percall(_cid, _o), 'P', FNO + pc.FN_EDIT,
                       f'carrier {_cid}; put_slice(code, a, b, {_o}=value) with value from 6 valid + 4 invalid vocabulary values and (a, b) over Z: defaults untouched afterwards (also on raise), per-call == per-block result, next call unaffected',
                       tier='quick' if (_cid, _o) in (('ifbody3', 'trivia'), ('list4c', 'pars')) else 'thorough', budget=900, per_path=60, reset=_reset))
+CELLS.append(Cell('P2.query_options', p2_query_options, 'P', FNO + ['fst.fst.FST.own_src', 'fst.fst.FST.own_lines'],
+                  'own_src() on every def/class/statement of a carrier with docstrings, asked in all 6 orders of (default, docstr=v1 per call, inside options(docstr=v2)) for v1, v2 in {True, False, strict}; '
+                  'each answer equals a fresh tree asked once under the same effective option', budget=600, per_path=60, reset=_reset))
